@@ -127,6 +127,15 @@ func judgeRes(sp resSpec, o obs) (string, string) {
 	if o.MarkerErr {
 		return "marker", "could not write on the stream after a successful resumed handshake"
 	}
+	if sp.Cfg.Auth == "REQUIRED" && sp.Authed != "true" && sp.Kind == "ressrv" {
+		// known finding: ServerHandshake does not hold a resumed session to the
+		// authenticator's (default) Authentication=REQUIRED; the dispatching server
+		// enforces the resumed command's own policy on the restored outcome (C05).
+		if o.Auth {
+			return "resumed-report-auth", "server reported Authentication=true for a session not recorded as authenticated"
+		}
+		return "resumed-auth-required-server", fmt.Sprintf("ServerHandshake resumed a session recorded as Authenticated=%s although the authenticator's own Authentication=REQUIRED (reported Authentication=false)", sp.Authed)
+	}
 	if sp.Cfg.Auth == "REQUIRED" && sp.Authed != "true" {
 		return "resumed-auth-required", fmt.Sprintf("resumed a session recorded as Authenticated=%s although own Authentication=REQUIRED", sp.Authed)
 	}
